@@ -37,7 +37,8 @@ Record case := mkCase {
   c_value : Z; c_bx : Z; c_by : Z; c_bz : Z;
   c_steps : list dstep; c_revert : bool;
   c_point : point; c_queries : list query;
-  c_gas_base : Z; c_gas_with : Z;      (* oracles *)
+  c_gas_base : Z; c_gas_with : Z;      (* oracles: gas used by the scenario tx *)
+  c_gas2_base : Z; c_gas2_with : Z;    (* oracles: gas used by the tail tx *)
   c_obs : obs
 }.
 
@@ -48,12 +49,21 @@ Definition sim_bank_fee : Z := 1000000.
 Definition body_step (s : dstep) : step :=
   match s with DYield => SYield | DSend to n => SXfer aK to n | DBank to n => SBank aK to n end.
 
+Definition tail_gas_limit : Z := 100000.
+Definition tail_amount : Z := 1000000.
+
 (** DeliverTx of the creation tx: ante fee, EthereumTx prologue, frame, body, commit, refund, deferred clear *)
-Definition deliver_script (c : case) (gas : Z) : list step :=
+Definition tx1_script (c : case) (gas : Z) : list step :=
   [SFee aS aF gas_limit; SMark; SOpenPub; SSnap; SXfer aS aK (c_value c)]
   ++ map body_step (c_steps c)
   ++ (if c_revert c then [SRevert] else [])
   ++ [SCommit; SRefund aF aS (gas_limit - gas); SClear].
+
+(** DeliverTx of the tail tx: plain transfer S -> Z *)
+Definition tx2_script (gas2 : Z) : list step :=
+  [SFee aS aF tail_gas_limit; SMark; SOpenPub; SXfer aS aZ tail_amount; SCommit; SRefund aF aS (tail_gas_limit - gas2); SClear].
+
+Definition deliver_script (c : case) (gas gas2 : Z) : list step := tx1_script c gas ++ tx2_script gas2.
 
 Definition query_script (q : query) : list step :=
   match q_kind q with
@@ -81,12 +91,13 @@ Fixpoint query_sched (t : nat) (qs : list (list step)) : list tid :=
   | q :: qs' => repeat t (length q) ++ query_sched (S t) qs'
   end.
 
-Definition schedule (c : case) (dlen : nat) (qs : list (list step)) : list tid :=
+Definition schedule (c : case) (d1 dlen : nat) (qs : list (list step)) : list tid :=
   let qsch := query_sched 1 qs in
   match c_point c with
   | PNone => repeat 0%nat dlen
   | PPre => qsch ++ repeat 0%nat dlen
-  | PPost | PInter => repeat 0%nat dlen ++ qsch
+  | PPost => repeat 0%nat d1 ++ qsch ++ repeat 0%nat (dlen - d1)
+  | PInter => repeat 0%nat dlen ++ qsch
   | PYield k =>
       match yield_pos k (c_steps c) with
       | Some p => repeat 0%nat (5 + p) ++ qsch ++ repeat 0%nat (dlen - (5 + p))
@@ -100,13 +111,18 @@ Definition ledger0 (c : case) : ledger :=
            | 4%nat => 1000000000000000 | 6%nat => 1000000000000 | _ => 0 end.
 
 Definition run_base (c : case) : state :=
-  let d := deliver_script c (c_gas_base c) in
+  let d := deliver_script c (c_gas_base c) (c_gas2_base c) in
   run Shared (repeat 0%nat (length d)) (init [d] (fun _ => ledger0 c)).
 
+Definition with_threads (c : case) : list (list step) :=
+  deliver_script c (c_gas_with c) (c_gas2_with c) :: map query_script (c_queries c).
+
+Definition with_schedule (c : case) : list tid :=
+  schedule c (length (tx1_script c (c_gas_with c))) (length (deliver_script c (c_gas_with c) (c_gas2_with c)))
+           (map query_script (c_queries c)).
+
 Definition run_with (c : case) : state :=
-  let d := deliver_script c (c_gas_with c) in
-  let qs := map query_script (c_queries c) in
-  run Shared (schedule c (length d) qs) (init (d :: qs) (fun _ => ledger0 c)).
+  run Shared (with_schedule c) (init (with_threads c) (fun _ => ledger0 c)).
 
 Definition ev_eqb (a b : ev) : bool :=
   match a, b with
@@ -131,14 +147,13 @@ Definition predict (c : case) : obs :=
   let same_written := forallb (fun a => Bool.eqb (existsb (Nat.eqb a) (written b)) (existsb (Nat.eqb a) (written w))) all_accts in
   let heq := zlist_eqb bl wl && Bool.eqb fb fw && same_written in
   mkObs heq heq
-        (Bool.eqb fb fw && (c_gas_base c =? c_gas_with c) && (fb || evs_eqb (log (thr b 0%nat)) (log (thr w 0%nat))))
+        (Bool.eqb fb fw && (c_gas_base c =? c_gas_with c) && (c_gas2_base c =? c_gas2_with c)
+         && (fb || evs_eqb (log (thr b 0%nat)) (log (thr w 0%nat))))
         (negb fb) (negb fw) bl wl.
 
 (** did the model see a request step dereference / publish / clear the shared pointer? *)
 Definition model_hazard (c : case) : bool :=
-  let d := deliver_script c (c_gas_with c) in
-  let qs := map query_script (c_queries c) in
-  negb (hazard_free (init (d :: qs) (fun _ => ledger0 c)) (schedule c (length d) qs)).
+  negb (hazard_free (init (with_threads c) (fun _ => ledger0 c)) (with_schedule c)).
 
 (** Outside the model's reach, both only after a request has reached the shared pointer:
     - a simulated EVM tx that reuses and COMMITS the in-flight StateDB inside a frame that is reverted afterwards
